@@ -40,14 +40,14 @@ const bigReap = 1000
 // Op is one step of a history. All numbers are relative to the model state at the time the
 // op runs (nonces are "state nonce + d"), so every sub-sequence of a history is a history.
 type Op struct {
-	K    string `json:"k"`              // sub | ext | dup | adm | reap | commit | flush
+	K    string `json:"k"`              // sub | ext | dup | adm | reap | commit | fcommit | flush
 	A    int    `json:"a,omitempty"`    // account 0..3
 	D    int    `json:"d,omitempty"`    // sub: nonce = state nonce + d, d in [-2,5]; ext: nonce = first unheld nonce + d, d in [0,1]
 	V    int    `json:"v,omitempty"`    // variant: same account+nonce, different gas limit => different tx hash
 	R    int    `json:"r,omitempty"`    // sub: r further variants v+1..v+r of the same account+nonce follow (repeats); ext: r further consecutive nonces follow, in order
 	I    int    `json:"i,omitempty"`    // dup: index (mod count) of an earlier submission sent again byte-identically; adm: payload id
 	N    int    `json:"n,omitempty"`    // reap: limit
-	Take []int  `json:"take,omitempty"` // commit: per account how many of its offered txs (nonce order) go in the block
+	Take []int  `json:"take,omitempty"` // commit: per account how many of its offered txs (nonce order) go in the block; fcommit: per account how many nonces a block from another proposer (txs this pool never saw) consumes
 	Adm  int    `json:"adm,omitempty"`  // commit: how many of the offered admin txs go in the block
 	Hole int    `json:"hole,omitempty"` // commit: 0 none; else one tx (index hole-1 mod (take-1)) of account HoleA is left out of its run
 	HA   int    `json:"ha,omitempty"`   // commit: the hole applies to the first account from HA on (cyclically) with >= 2 selected txs
@@ -65,6 +65,12 @@ func genOp(variants bool) *rapid.Generator[Op] {
 		switch {
 		case w == 50: // an interior value: rapid favours the ends of an integer range
 			o.K = "flush"
+		case w >= 70 && w < 76:
+			o.K = "fcommit"
+			o.Take = make([]int, nAcc)
+			for a := 0; a < nAcc; a++ {
+				o.Take[a] = rapid.SampledFrom([]int{0, 0, 1, 1, 2}).Draw(t, "ftake")
+			}
 		case w < 24:
 			o.K = "sub"
 			o.A = rapid.IntRange(0, nAcc-1).Draw(t, "a")
@@ -89,7 +95,7 @@ func genOp(variants bool) *rapid.Generator[Op] {
 		case w < 63:
 			o.K = "adm"
 			o.I = rapid.IntRange(0, 5).Draw(t, "payload")
-		case w < 76:
+		case w < 70:
 			o.K = "reap"
 			o.N = rapid.SampledFrom([]int{0, 1, 3, -1, bigReap, 2, 5}).Draw(t, "n")
 		default:
@@ -120,7 +126,46 @@ func genPool(t *rapid.T) PoolCase {
 	variants := rapid.IntRange(0, 2).Draw(t, "variants") > 0
 	// rapid's own slice lengths are strongly biased to short slices: draw the length explicitly
 	n := rapid.IntRange(3, 60).Draw(t, "nops")
-	c.Ops = rapid.SliceOfN(genOp(variants), n, n).Draw(t, "ops")
+	if rapid.IntRange(0, 3).Draw(t, "nearFull") == 0 {
+		// Scenario prefix "pool nearly full, several accounts parked behind a gap": one account fills
+		// the pending queue up to a few free slots, 2..3 other accounts queue nonces above their
+		// state nonce, then a block from another proposer consumes the missing nonces of all of them
+		// at once. Everything after the prefix is the usual random history.
+		limit := 10 * c.BlockSize
+		filler := rapid.IntRange(0, nAcc-1).Draw(t, "filler")
+		fill := limit - rapid.IntRange(0, 4).Draw(t, "room")
+		if rapid.IntRange(0, 3).Draw(t, "fillInOrder") == 0 {
+			// in nonce order: the pool promotes only the head, the rest fills the WAITING queue
+			for fill > 0 {
+				k := fill
+				if k > 5 {
+					k = 5
+				}
+				c.Ops = append(c.Ops, Op{K: "ext", A: filler, R: k - 1})
+				fill -= k
+			}
+		} else {
+			// nonces fill-1..1 first, nonce 0 last: one promotion moves the whole run into the
+			// PENDING queue (the waiting queue holds the limit-1 others until the head arrives)
+			for d := fill - 1; d >= 0; d-- {
+				c.Ops = append(c.Ops, Op{K: "sub", A: filler, D: d})
+			}
+		}
+		parked := rapid.IntRange(2, 3).Draw(t, "parkedAccounts")
+		fc := Op{K: "fcommit", Take: make([]int, nAcc)}
+		for j := 1; j <= parked; j++ {
+			a := (filler + j) % nAcc
+			gap := rapid.IntRange(1, 2).Draw(t, "gap")
+			run := rapid.IntRange(1, 3).Draw(t, "parkedRun")
+			for d := gap; d < gap+run; d++ {
+				c.Ops = append(c.Ops, Op{K: "sub", A: a, D: d})
+			}
+			fc.Take[a] = gap
+		}
+		c.Ops = append(c.Ops, fc)
+		n = rapid.IntRange(0, 25).Draw(t, "nopsAfterPrefix")
+	}
+	c.Ops = append(c.Ops, rapid.SliceOfN(genOp(variants), n, n).Draw(t, "ops")...)
 	return c
 }
 
@@ -404,6 +449,33 @@ func newRunner(e *appEnv, x *h.Ctx) *runner {
 
 func (r *runner) label(l string) { r.labels[l] = true }
 
+var traceOn = os.Getenv("C19_TRACE") != ""
+
+// trace prints the model and the pool's view after a step (replay debugging aid, C19_TRACE=1).
+func (r *runner) trace() {
+	if !traceOn {
+		return
+	}
+	m := r.m
+	fmt.Printf("TRACE step %d %-28s size=%d |", r.step, r.opDesc, r.pool.Size())
+	for a := 0; a < nAcc; a++ {
+		pn, _ := r.pool.GetPendingMaxNonce(r.addrs[a][:])
+		must := []uint64{}
+		for n := range m.must[a] {
+			must = append(must, n)
+		}
+		sort.Slice(must, func(i, j int) bool { return must[i] < must[j] })
+		fmt.Printf(" a%d s=%d may=%v must=%v pmn=%d |", a, m.s[a], heldNonces(m, a), must, pn)
+	}
+	var off []string
+	for _, raw := range r.pool.Reap(bigReap) {
+		if rc := r.byRaw[string(raw)]; rc != nil {
+			off = append(off, rc.String())
+		}
+	}
+	fmt.Printf(" offered=%v\n", off)
+}
+
 // fail reports a violation; it returns true when the run must stop.
 func (r *runner) fail(sig, f string, a ...any) bool {
 	msg := fmt.Sprintf(f, a...)
@@ -673,6 +745,16 @@ func (r *runner) checkReap(out []gtypes.Tx, n int, strong bool) (eth [nAcc][]*re
 		eth[a] = append(eth[a], rc)
 	}
 
+	nEth := 0
+	for a := 0; a < nAcc; a++ {
+		nEth += len(eth[a])
+	}
+	if nEth > m.limit || len(adm) > m.limit {
+		if r.fail("pending-exceeds-configured-limit", "Reap(%d) offered %d executable and %d admin txs, the pending limit is %d (block_size*10)", n, nEth, len(adm), m.limit) {
+			return
+		}
+	}
+
 	// no-loss, immediate part (only while below capacity)
 	total := m.ethCount()
 	unlimited := n >= bigReap || (n < 0 && total+len(m.adm) < m.limit)
@@ -745,6 +827,49 @@ func (r *runner) checkSize() {
 	}
 }
 
+// checkBounds asserts the configured bounds themselves, unconditionally (no obligation of the
+// model is needed for them, so they stay on at capacity): the pending queue is what an unlimited
+// Reap offers besides admin txs (<= pendingLimit), the admin queue <= pendingLimit, and the
+// waiting queue is everything else Size() counts (<= waitingLimit).
+func (r *runner) checkBounds() {
+	m := r.m
+	out := r.pool.Reap(bigReap)
+	pending, adm := 0, 0
+	for _, raw := range out {
+		if gtypes.IsAdminOP(raw) {
+			adm++
+		} else {
+			pending++
+		}
+	}
+	sz := r.pool.Size()
+	waiting := sz - pending - adm
+	if pending > m.limit {
+		if r.fail("pending-exceeds-configured-limit", "the pool offers %d executable txs (Reap(%d) minus admin txs), pendingLimit is %d (block_size*10)", pending, bigReap, m.limit) {
+			return
+		}
+	}
+	if adm > m.limit {
+		if r.fail("admin-queue-exceeds-configured-limit", "the pool offers %d admin txs, the limit is %d", adm, m.limit) {
+			return
+		}
+	}
+	if waiting > m.limit {
+		if r.fail("waiting-exceeds-configured-limit", "Size()=%d, pending %d, admin %d: %d txs are queued as non-executable, waitingLimit is %d (block_size*10)", sz, pending, adm, waiting, m.limit) {
+			return
+		}
+	}
+	if pending == m.limit {
+		r.label("bound:pending-queue-exactly-full")
+	}
+	if waiting == m.limit {
+		r.label("bound:waiting-queue-exactly-full")
+	}
+	if n := len(r.pool.Reap(-1)); n > m.limit {
+		r.fail("reap-exceeds-limit", "Reap(-1) returned %d txs, more than pendingLimit %d", n, m.limit)
+	}
+}
+
 func (r *runner) checkPendingNonce() {
 	m := r.m
 	for a := 0; a < nAcc; a++ {
@@ -760,6 +885,15 @@ func (r *runner) checkPendingNonce() {
 			continue
 		}
 		want := m.firstUnheld(a)
+		if m.ethCount() >= m.limit || m.linger > 0 {
+			// at capacity the pool cleans its waiting queue lazily: stale txs may still sit in front of
+			// the queued ones and the query then answers the state nonce. Like every obligation of the
+			// model this one is suspended at capacity: observation only.
+			if got != want {
+				r.label("obs:pending-nonce-differs-from-first-unheld(at-capacity,stale-leftovers-in-waiting)")
+			}
+			continue
+		}
 		gapped := false
 		variants := false
 		for n, l := range m.may[a] {
@@ -938,6 +1072,59 @@ func (r *runner) opCommit(o Op) {
 	r.checkReap(out, bigReap, true)
 }
 
+// foreignVariant marks txs that are never submitted to the pool: they reach the chain through a
+// block "proposed elsewhere" and only advance the state nonces.
+const foreignVariant = 9
+
+// opForeignCommit commits a block of txs this pool never saw (blocks come from other proposers):
+// per account the next Take[a] nonces, executed through the real app, then Update + OnCommit.
+func (r *runner) opForeignCommit(o Op) {
+	out := r.pool.Reap(bigReap)
+	r.checkReap(out, bigReap, false)
+	if r.stop {
+		return
+	}
+	var sel [nAcc][]*rec
+	n := 0
+	for a := 0; a < nAcc; a++ {
+		k := 0
+		if a < len(o.Take) {
+			k = o.Take[a]
+		}
+		if k > 3 {
+			k = 3
+		}
+		for j := 0; j < k; j++ {
+			rc := r.ethRec(a, r.m.s[a]+uint64(j), foreignVariant)
+			sel[a] = append(sel[a], rc)
+			n++
+		}
+	}
+	if n == 0 {
+		r.label("fcommit:empty")
+	} else {
+		r.label("fcommit:state-nonces-advance-from-outside")
+		waitingBecomesExecutable := 0
+		for a := 0; a < nAcc; a++ {
+			if k := len(sel[a]); k > 0 && len(r.m.may[a][r.m.s[a]+uint64(k)]) > 0 && len(r.m.may[a][r.m.s[a]]) == 0 {
+				waitingBecomesExecutable++
+			}
+		}
+		if waitingBecomesExecutable >= 2 {
+			r.label("fcommit:>=2-accounts-become-executable-in-one-commit")
+			if r.m.ethCount() >= r.m.limit-2 {
+				r.label("fcommit:>=2-accounts-become-executable-while-pool-nearly-full")
+			}
+		}
+	}
+	r.commitBlock(sel, nil)
+	if r.stop {
+		return
+	}
+	out = r.pool.Reap(bigReap)
+	r.checkReap(out, bigReap, true)
+}
+
 // drain: no-loss, eventual part. Reap and commit everything until nothing is offered; every
 // obliged executable chain must have been executed by then.
 func (r *runner) drain() {
@@ -966,10 +1153,15 @@ func (r *runner) drain() {
 			break
 		}
 		r.commitBlock(eth, adm)
+		r.trace()
 		if r.stop {
 			return
 		}
 		r.checkSize()
+		if r.stop {
+			return
+		}
+		r.checkBounds()
 		if r.stop {
 			return
 		}
@@ -1044,6 +1236,8 @@ func (r *runner) run(c PoolCase) {
 			r.label(fmt.Sprintf("reap:n=%d", o.N))
 		case "commit":
 			r.opCommit(o)
+		case "fcommit":
+			r.opForeignCommit(o)
 		case "flush":
 			r.pool.Flush()
 			r.m.flush()
@@ -1052,10 +1246,15 @@ func (r *runner) run(c PoolCase) {
 				r.fail("flush-leaves-txs", "Size()=%d right after Flush", sz)
 			}
 		}
+		r.trace()
 		if r.stop {
 			return
 		}
 		r.checkSize()
+		if r.stop {
+			return
+		}
+		r.checkBounds()
 		if r.stop {
 			return
 		}
